@@ -864,11 +864,11 @@ func c09Topo(c *Ctx) {
 		n = 50000
 	}
 	type tcase struct {
-		n     int
-		edges [][2]int
-		order []int
-		err   bool
-		src   string
+		n         int
+		edges     [][2]int
+		order     []int
+		err       bool
+		src       string
 		closed    string
 		closedErr bool
 	}
